@@ -68,6 +68,10 @@ def run(ctx) -> None:
     from . import c08, c19
 
     ctx.reuse("C04.alias", c08.id_width)
+    # "its initial volume": the initial volumes are laid out as given (row-major reshape, scalars broadcast) in a float array
+    from . import c20
+
+    ctx.reuse("C04.frame", c20.parallel)
     ctx.reuse("C04.alias", c19.check)
     for dev in concrete_devices(ctx):
         ctx.reuse("C04.pairing", c06.wiring, dev)
